@@ -46,6 +46,11 @@ PROPS = {
     "C07": engine_prop("TestC07"),
     "C08": engine_prop("TestC08"),
     "C09": engine_prop("TestC09"),
+    "C10": {"level": "fault_enumeration", "assumptions": ENGINE_ASSUMPTIONS + ["'eventually' is decided as bounded convergence under the model's fair round-robin scheduler (30 rounds); real requeue timing and back-off are not exercised", "the drift alphabet is limited to edits PKO is specified to repair (delete managed object, edit desired field, drop the cache label); stripping ownership is excluded because C01 forbids re-adoption under Prevent"],
+            "parts": [
+                {"name": "single-fault", "test": "TestC10Faults", "quick_checks": 8, "quick_scale": 1, "thorough_checks": 160, "thorough_shards": 16, "thorough_scale": 2, "thorough_timeout": 7200},
+                {"name": "sequences", "test": "TestC10Sequences", "quick_checks": 150, "thorough_checks": 12000, "thorough_shards": 16},
+            ]},
     "C15": {"level": "exploration", "assumptions": ENGINE_ASSUMPTIONS + ["only the built-in same-cluster phase class is compared with in-process phases; the multi-cluster (annotation strategy) controller is exercised under C01/C02/C04/C05 but has no in-process equivalent to compare with"],
             "parts": [{"name": "differential", "test": "TestC15", "quick_checks": 250, "thorough_checks": 16000, "thorough_shards": 16},
                       {"name": "stale-status", "test": "TestC15Stale", "quick_checks": 500, "thorough_checks": 40000, "thorough_shards": 16}]},
